@@ -1,6 +1,7 @@
 #!/bin/bash
 # Refresh an existing scratch copy (made by mk_scratch.sh) from /verif and /repo, keeping its target dir.
 set -e
+if [ -n "$(git -C /repo status --porcelain --untracked-files=all contracts packages)" ]; then echo "/repo is not clean (a run is patching it?): refusing to sync" >&2; exit 1; fi
 D=${1:-/tmp/mut}
 git -C "$D/repo" checkout -- . 2>/dev/null || true
 rsync -a --exclude target --exclude .git /repo/ "$D/repo/"
